@@ -104,18 +104,20 @@ func isIncludeKeyword(lex *scanner.Lexeme) bool {
 }
 
 func validateIncludeFileName(s string) error {
+	if s == "" {
+		return errors.New(jerr.IncludeEmptyErr)
+	}
+
 	if s[0] == '/' {
 		return errors.New(jerr.IncludeRootErr)
 	}
 
-	hasForbiddenParts := strings.Contains(s, "/./") ||
-		strings.Contains(s, "./") ||
-		strings.Contains(s, "/.") ||
-		strings.Contains(s, "/../") ||
-		strings.Contains(s, "../") ||
-		strings.Contains(s, "/..")
-	if hasForbiddenParts {
-		return errors.New(jerr.IncludeUpErr)
+	// The name is checked segment by segment: a segment may contain dots
+	// (".hidden", "a.", "..foo"), but it cannot be "." or "..".
+	for _, segment := range strings.Split(s, "/") {
+		if segment == "." || segment == ".." {
+			return errors.New(jerr.IncludeUpErr)
+		}
 	}
 
 	if strings.ContainsRune(s, '\\') {
